@@ -14,8 +14,8 @@ directive @defer(label: String, if: Boolean! = true) on FRAGMENT_SPREAD | INLINE
 type Q { a: Int b(x: Int!, y: In, e: E = A, l: [Int]): Int o: O i: I u: U s: String }
 type M { m(x: Int): Int }
 type S { t: Int o: O }
-type O implements I { a: Int c: String o: O n(x: Int): Int! }
-type P implements I { a: Int c: Int p: Int }
+type O implements I { a: Int c: String o: O n(x: Int): Int! l1: [String]! l2: [[Int]!] l3: [O!]! }
+type P implements I { a: Int c: Int p: Int l1: [String] l2: [[Int]] l3: [O!] }
 interface I { a: Int }
 union U = O | P
 enum E { A B }
@@ -38,6 +38,7 @@ subscription DS($b: Boolean!) { o { a ... @defer(if: $b) { c } ... @defer(if: fa
     "query VA($v: Int) { ...V b(x: 1, e: A) } query VB($v: Int = 2) { ...V ...W }
 fragment V on Q { k1: b(x: 1, y: {r: 1, d: $v, n: {r: 2, d: $v}}) o { n(x: $v) } ...W }
 fragment W on Q { k2: b(x: 2, l: [$v, 1]) s @include(if: true) @dq(x: $v) }",
+    "{ o { ...F2 o { ...F2 l3 { ...F2 } } } i { ... on O { ...F2 } } ...Q2 } fragment F2 on O { a c } fragment Q2 on Q { o { ...F2 } s }",
 ];
 
 fn value_abs(v: &ast::Value) -> J {
@@ -359,6 +360,8 @@ fn iterator_facts(doc: &ExecutableDocument) -> Vec<J> {
 pub const MERGE_POOL: &[&str] = &[
     "a", "x: a", "... on O { c }", "... on P { c }", "... on O { x: c }", "... on P { x: p }", "... on O { n(x: 1) }", "... on O { n(x: 2) }",
     "... on O { o { a } }", "... on O { o { x: c } }", "... on O { o { x: a } }", "... on P { k: a }", "... on O { k: c }", "... on O { k: n(x: 1) }",
+    // list types that differ only in the nullability of a list level, on disjoint objects
+    "... on O { l1 }", "... on P { l1 }", "... on O { l2 }", "... on P { l2 }", "... on O { l3 { a } }", "... on P { l3 { a } }",
 ];
 
 /// `doc-cases --seed S --depth2 N --schemas-out FILE`: Trace_ExecRules lines
